@@ -42,7 +42,11 @@ impl CredentialStore for YieldStore {
     type PasskeyItem = Passkey;
     async fn find_credentials(&self, ids: Option<&[PublicKeyCredentialDescriptor]>, rp_id: &str) -> Result<Vec<Passkey>, StatusCode> {
         YieldN(self.yields).await;
-        self.inner.find_credentials(ids, rp_id).await
+        // the map lists in hash order; the double lists by id (the pre-loaded "c19-held-..." ids sort before the random ids
+        // of new credentials only by chance, so they are put first explicitly): the same schedule gives the same run
+        let mut v = self.inner.find_credentials(ids, rp_id).await?;
+        v.sort_by(|a, b| (!a.credential_id.starts_with(b"c19-held-"), a.credential_id.to_vec()).cmp(&(!b.credential_id.starts_with(b"c19-held-"), b.credential_id.to_vec())));
+        Ok(v)
     }
     async fn save_credential(&mut self, cred: Passkey, user: PublicKeyCredentialUserEntity, rp: PublicKeyCredentialRpEntity, options: get_assertion::Options) -> Result<(), StatusCode> {
         YieldN(self.yields).await;
@@ -448,16 +452,23 @@ pub fn judge(cfg: &Config, out: &RunOut) -> Result<Verdict, String> {
             }
         }
     }
-    // the lock wrappers hand every counter update to the shared store as the authenticator issued it, and an answered
-    // assertion reports the value it asked the store to hold (what "the largest reported value is the stored one" rests on)
+    // what the shared store ends up holding for a held credential is its start value or a value that some ceremony asked
+    // the store to hold (the lock wrappers pass counter updates on; whether they pass on every single one is their business),
+    // and an answered assertion reports the value it asked the store to hold -- together these carry "the largest reported
+    // value is the stored one" through every schedule, overlapping or not
     {
-        let mut asked: Vec<(Vec<u8>, Option<u32>)> = out.events.iter().filter(|e| e.kind == "update" && e.begin).map(|e| (e.cred.clone().unwrap_or_default(), e.counter)).collect();
-        let mut reached = out.writes.clone();
-        asked.sort();
-        reached.sort();
-        if asked != reached {
-            let show = |v: &[(Vec<u8>, Option<u32>)]| v.iter().map(|(_, c)| format!("{c:?}")).collect::<Vec<_>>().join(", ");
-            return Err(format!("the authenticators asked the shared store to hold the counters [{}], the store behind the lock wrapper received [{}] (schedule {:?})", show(&asked), show(&reached), out.choices));
+        let asked: Vec<(Vec<u8>, Option<u32>)> = out.events.iter().filter(|e| e.kind == "update" && e.begin).map(|e| (e.cred.clone().unwrap_or_default(), e.counter)).collect();
+        if !out.deadlock {
+            for k in 0..2u8 {
+                let id = held_id(k);
+                if let Some((_, Some(stored))) = out.final_store.iter().find(|(i, _)| i == &id) {
+                    if *stored != cfg.counter && !asked.iter().any(|(i, c)| i == &id && *c == Some(*stored)) {
+                        let show: Vec<String> = asked.iter().filter(|(i, _)| i == &id).map(|(_, c)| format!("{c:?}")).collect();
+                        let reached: Vec<String> = out.writes.iter().filter(|(i, _)| i == &id).map(|(_, c)| format!("{c:?}")).collect();
+                        return Err(format!("the shared store ends up holding counter {stored} for a credential that started at {} although no ceremony asked it to hold that value (asked: [{}], reached the store behind the lock wrapper: [{}]; schedule {:?})", cfg.counter, show.join(", "), reached.join(", "), out.choices));
+                    }
+                }
+            }
         }
         for (t, c) in cfg.cers.iter().enumerate() {
             if matches!(c, Cer::AssertDeclined { .. }) && matches!(out.results.get(t), Some(Some(Done::Declined))) && out.events.iter().any(|e| e.tag == t && e.kind == "update") {
@@ -658,7 +669,7 @@ fn config(max_tasks: usize) -> impl Strategy<Value = Config> {
 
 pub fn run(ctx: &mut Ctx) {
     let fs = ctx.first_shard();
-    ctx.rule = "2-3 authenticators share one Arc<Mutex<store>> / Arc<RwLock<store>> (inner store = MemoryStore behind a wrapper that suspends 0-2 times inside every call, so guards are held across suspensions; its update only rewrites a record it finds, and it can refuse the n-th counter update with a status byte: the assertion that issued it must then fail); user validation suspends 0-3 times; ceremony sets {assert/assert same credential, assert/assert different credentials, assert/register, register/register same and different user, an assertion the authenticator refuses after the user prompt next to a successful one on the same credential, silent assertions (up = false), start counters up to 2^32-4, three-way mixes}. A schedule is the sequence of 'poll the k-th runnable ceremony' decisions; ALL schedules are enumerated for the fixed small configurations (DFS with prefix replay), larger ones get proptest-generated schedules. Non-trivial = schedule with at least one context switch between two unfinished ceremonies; distinct by (configuration, schedule).".into();
+    ctx.rule = "2-3 authenticators share one Arc<Mutex<store>> / Arc<RwLock<store>> (inner store = MemoryStore behind a wrapper that suspends 0-2 times inside every call, so guards are held across suspensions; its update only rewrites a record it finds, and it can refuse the n-th counter update with a status byte: the assertion that issued it must then fail); user validation suspends 0-3 times; ceremony sets {assert/assert same credential, assert/assert different credentials, assert/register, register/register same and different user, an assertion the authenticator refuses after the user prompt next to a successful one on the same credential, silent assertions (up = false), start counters up to 2^32-4, three-way mixes}. A schedule is the sequence of 'poll the k-th runnable ceremony' decisions; ALL schedules are enumerated for the fixed small configurations (DFS with prefix replay), larger ones get proptest-generated schedules. Since rounds 7/8: declined assertions, allow lists naming both held credentials, start counter 2^32-3; in every schedule the counters handed to the shared store equal those reaching the store behind the wrapper, and an answered assertion reports the value it asked the store to hold. Non-trivial = schedule with at least one context switch between two unfinished ceremonies; distinct by (configuration, schedule).".into();
     ctx.assumptions = vec![
         "the harness owns every suspension point (user validation and store calls suspend only through harness doubles), so a ceremony is deterministic given the poll order".into(),
         "deadlock = no ceremony woken while ceremonies are unfinished".into(),
